@@ -290,6 +290,14 @@ def _convergence(scn):
         t = scn.cluster.topics.get(tname)
         if tname in subscribed and t is not None and pi < len(t.partitions):
             want.add((tname, pi))
+    # ... plus the partitions of a topic the leader has no metadata for at all although a live member subscribes to it and
+    # knows it: fetching metadata for every topic of the group is the leader's job (a stale partition *count* is not)
+    leader_topics = {tname for tname, _ in leader[0]["known"]} if leader else set()
+    for st in live.values():
+        for tname, pi in st["known"]:
+            t = scn.cluster.topics.get(tname)
+            if leader and tname in st["subscription"] and tname not in leader_topics and t is not None and pi < len(t.partitions):
+                want.add((tname, pi))
     have = {}
     for i, st in live.items():
         for tp in st["assignment"]:
